@@ -3,6 +3,7 @@ import copy
 import itertools
 
 import numpy as np
+import scipy.sparse
 
 import gen
 from common import Driver, sha
@@ -29,9 +30,12 @@ def run_history(ctx, drv_pending, base, batches, ops, X_by_id, label, feats, nco
         try:
             if kind == "T":
                 ids = cur if o[1] == "train" else [o[1]]
-                Y = np.vstack([X_by_id[i] for i in ids])
+                if scipy.sparse.issparse(X_by_id[ids[0]]):
+                    Y = scipy.sparse.vstack([X_by_id[i] for i in ids]).tocsr()
+                else:
+                    Y = np.vstack([X_by_id[i] for i in ids])
                 out = m.transform(Y)
-                out2 = m.transform(Y)
+                out2 = m.transform(Y.copy())       # equal values in another object
                 is_train = ids == cur
                 if graph_mode:
                     ok_shape = out.shape == (Y.shape[0], m._raw_data.shape[0])
@@ -100,7 +104,7 @@ def run_history(ctx, drv_pending, base, batches, ops, X_by_id, label, feats, nco
 def run(ctx):
     import umap
     rng = ctx.rng
-    ctx.rule = ("all operation sequences over {T(current training data), T(original data), T(new1), T(new2), inverse_transform (3 rows), update(extra)}, plus histories with the round trip inverse_transform(embedding_) (as many rows as the training data) "
+    ctx.rule = ("all operation sequences over {T(current training data), T(original data), T(new1), T(new2), inverse_transform (3 rows), update(extra)}, on exact, NN-descent, CSR-trained, graph-mode and list-n_epochs models, plus histories with the round trip inverse_transform(embedding_) (as many rows as the training data) "
                 "up to length 2 (quick) / 3 (thorough) plus a seeded sample of the next length containing update-then-transform, on a seeded "
                 "exact-path model (n=60); shorter ones on a forced NN-descent model "
                 "and for n_epochs in {0,2,30} and transform_mode='graph'; after every step: shape, is-training-embedding, repetition equality, "
@@ -145,6 +149,15 @@ def run(ctx):
     bg = umap.UMAP(n_neighbors=8, random_state=42, n_epochs=30, transform_mode="graph").fit(X0)
     for ops in [[("T", 1)], [("T", "train")], [("T", 2), ("T", 1)]]:
         run_history(ctx, pending, bg, [0], ops, X_by_id, "graph-mode", feats, ncomp, graph_mode=True)
+    # CSR training data (the training set is recognised by its values, whatever object carries them) and a model fitted with a
+    # list of epochs (fit keeps the intermediate embeddings; the model must stay usable)
+    S_by = {i: scipy.sparse.csr_matrix(np.where(np.abs(X_by_id[i]) > 0.4, X_by_id[i], 0).astype(np.float32)) for i in X_by_id}
+    bs = umap.UMAP(n_neighbors=8, random_state=42, n_epochs=30).fit(S_by[0].copy())
+    for ops in [[("T", "train")], [("T", 1), ("T", "train")], [("U", 3), ("T", "train"), ("T", 1)]]:
+        run_history(ctx, pending, bs, [0], ops, S_by, "csr n_epochs=30", feats, ncomp)
+    bl = umap.UMAP(n_neighbors=8, random_state=42, n_epochs=[10, 24]).fit(X0)
+    for ops in [[("T", 1)], [("T", "train"), ("I",)], [("U", 3), ("T", 1), ("T", "train")]]:
+        run_history(ctx, pending, bl, [0], ops, X_by_id, "exact n_epochs=[10, 24]", feats, ncomp)
     # forced NN-descent model
     Xa, _ = gen.dataset(rng, 150, feats, kind="clusters")
     Xa_by = {0: Xa, 1: (Xa[:7] + 0.05).astype(np.float32), 2: (Xa[20:25] - 0.05).astype(np.float32),
